@@ -435,6 +435,9 @@ func (e *GenEnv) build(s *GenSpec) *Built {
 	case "SliceOf", "SliceOfN", "SliceOfDistinct", "SliceOfNDistinct":
 		elem := e.buildLocked(s.Elem)
 		minL, maxL := optInt(s.MinLen, -1), optInt(s.MaxLen, -1)
+		if s.K == "SliceOf" || s.K == "SliceOfDistinct" {
+			minL, maxL = -1, -1
+		}
 		distinct := strings.HasSuffix(s.K, "Distinct")
 		var g *rapid.Generator[[]any]
 		switch s.K {
@@ -455,11 +458,19 @@ func (e *GenEnv) build(s *GenSpec) *Built {
 				keys[i] = fmtVal(keyOf(x))
 				elemok = elemok && contractOK(elem.Check(x))
 			}
-			return F{"c": "coll", "typeok": ok, "len": len(sl), "minLen": minL, "maxLen": maxL, "distinct": distinct, "keys": keys, "elemok": elemok}
+			allzero := true
+			for _, x := range sl {
+				rv := reflect.ValueOf(x)
+				allzero = allzero && rv.IsValid() && rv.IsZero()
+			}
+			return F{"c": "coll", "typeok": ok, "len": len(sl), "minLen": minL, "maxLen": maxL, "distinct": distinct, "keys": keys, "elemok": elemok, "allzero": allzero}
 		}}
 	case "MapOf", "MapOfN", "MapOfValues", "MapOfNValues":
 		val := e.buildLocked(s.Val)
 		minL, maxL := optInt(s.MinLen, -1), optInt(s.MaxLen, -1)
+		if s.K == "MapOf" || s.K == "MapOfValues" {
+			minL, maxL = -1, -1
+		}
 		var g *rapid.Generator[map[any]any]
 		var key *Built
 		switch s.K {
@@ -486,7 +497,7 @@ func (e *GenEnv) build(s *GenSpec) *Built {
 				}
 			}
 			sort.Strings(keys)
-			return F{"c": "coll", "typeok": ok, "len": len(m), "minLen": minL, "maxLen": maxL, "distinct": true, "keys": keys, "elemok": elemok}
+			return F{"c": "coll", "typeok": ok, "len": len(m), "minLen": minL, "maxLen": maxL, "distinct": true, "keys": keys, "elemok": elemok, "allzero": false}
 		}}
 	case "Just":
 		it := parseItem(s.Items[0])
@@ -687,6 +698,23 @@ func buildMake(typ string) *Built {
 		return mkOf[[3]float64]()
 	case "bool":
 		return mkOf[bool]()
+	case "emptystruct":
+		return mkOf[struct{}]()
+	case "set":
+		return mkOf[map[int8]struct{}]()
+	case "sliceempty":
+		return mkOf[[]struct{}]()
+	case "marker":
+		return mkOf[struct {
+			A uint8
+			M struct{}
+		}]()
+	case "emptyarray":
+		return mkOf[[0]int]()
+	case "floats":
+		return mkOf[[]float32]()
+	case "uintptr":
+		return mkOf[uintptr]()
 	case "string":
 		return mkOf[string]()
 	}
